@@ -7,6 +7,7 @@ CONSTANTS
   CompOps = {}
   LocoOps = {}
   Targets = {}
+  Near = FALSE
   MaxOps = 0
 INVARIANT AtEnd
 POSTCONDITION Accepted
